@@ -96,6 +96,8 @@ def encode(d: Dict[str, Any], filler: bytes = None) -> bytes:
     buf[2:4] = struct.pack("<H", n)
     buf[18:21] = bytes.fromhex(d["device_id"])
     buf[38:40] = b"\xf0\xfe"
+    if "clock" in d:
+        buf[24:28] = struct.pack("<I", d["clock"])      # the device's clock reading: part of the header, not of what the callback gets
     buf[40] = int(d["device_key"], 16)
     raw = d["name"].encode("utf-8")
     assert 1 <= len(raw) <= 32
